@@ -452,4 +452,129 @@ theorem ols_time_scale (c : Rat) (t : List Pt) (dt : Rat) (L : Int) :
       simp only [h, if_false, Except.map, if_true, sqr, Except.ok.injEq, Est.mk.injEq, and_true]
       refine ⟨by ring, by ring⟩
 
+/-! ## the automatic number of lags (`max_lag=None`) — every theorem holds for EVERY `optimal_points` function `op`
+    (the run executes `optimalPointsF`, Michalet & Berglund's formulas in doubles) -/
+
+/-- **optimal_points_cache.** `determine_optimal_points` (which recomputes the MSD curve only when more lags are needed
+    than it has cached, carries `num_intercept` / `number_computed` along and fits the first `num_slope` CACHED points)
+    returns what the plain search returns that computes the MSD curve afresh for exactly the lags it fits
+    (`optSpec`): the cache and the bookkeeping do not influence the result. -/
+theorem optimal_points_cache (op : OptPts) (t : List Pt) :
+    detOpt op t = optSpec op t 100 (max 2 (t.length / 10), max 2 (t.length / 10)) [] := by
+  unfold detOpt
+  rw [optLoop_eq_spec op t 100 _ (optInit_inv t _)]
+  rfl
+
+/-- the automatic number of lags is invariant under translating / mirroring positions and shifting frame indices. -/
+theorem optimal_points_invariant (op : OptPts) (t : List Pt) (c : Rat) (k : Int) :
+    detOpt op (translate c t) = detOpt op t ∧ detOpt op (mirror t) = detOpt op t ∧
+    detOpt op (frameShift k t) = detOpt op t := by
+  simp only [optimal_points_cache]
+  refine ⟨?_, ?_, ?_⟩
+  · rw [optSpec_congr op t (translate c t) (by simp [translate]) (msd_translate c t)]; simp [translate]
+  · rw [optSpec_congr op t (mirror t) (by simp [mirror]) (msd_mirror t)]; simp [mirror]
+  · rw [optSpec_congr op t (frameShift k t) (by simp [frameShift]) (msd_frame_shift k t)]; simp [frameShift]
+
+/-- **optimal_points_scale.** Scaling the positions by `a ≠ 0` (another pixel size, another length unit) does not change
+    the number of lags the heuristic arrives at: the localisation error `intercept / slope` and the signs it branches on
+    are scale free. -/
+theorem optimal_points_scale (op : OptPts) (a : Rat) (ha : a ≠ 0) (t : List Pt) :
+    detOpt op (scale a t) = detOpt op t := by
+  simp only [optimal_points_cache]
+  rw [optSpec_scale op t (scale a t) (a ^ 2) (lt_of_le_of_ne (sq_nonneg a) (Ne.symm (pow_ne_zero 2 ha)))
+    (by simp [scale]) (msd_scale a t)]
+  simp [scale]
+
+example : (3 : Rat) ≠ 0 := by norm_num
+
+/-- `_diffusion_ols` through `estimate_diffusion_constant_simple`: a numeric answer is the least-squares line through the
+    first `max_lag` MSD points, `D = slope / (2 dt)`, localisation variance `= intercept / 2`. -/
+theorem ols_estimate_def (t : List Pt) (dt : Rat) (L : Int) (e : Est) (h : olsEstimate t dt L = .ok e) :
+    2 ≤ L ∧ olsDen (ptsOf (msdCounts t (some L))) ≠ 0 ∧
+    e.value = (olsLine (ptsOf (msdCounts t (some L)))).2 * (1 / (2 * dt)) ∧
+    e.lv = (olsLine (ptsOf (msdCounts t (some L)))).1 / 2 := by
+  unfold olsEstimate at h
+  split at h
+  · cases h
+  · rename_i hL
+    unfold olsFromRows at h
+    simp only at h
+    split at h
+    · cases h
+    · rename_i hd
+      cases h
+      exact ⟨by omega, hd, rfl, rfl⟩
+
+theorem exists_ok_of_toBool {ε α} (x : Except ε α) (h : x.toBool = true) : ∃ a, x = .ok a := by
+  cases x with
+  | error e => simp [Except.toBool] at h
+  | ok a => exact ⟨a, rfl⟩
+
+example : ∃ e, olsEstimate [(0, 0), (1, 1), (2, 3), (4, 2)] 1 2 = .ok e :=
+  exists_ok_of_toBool _ (by decide +kernel)
+
+/-- **ols_auto_def.** With `max_lag=None` the reported number of lags `k` is the one `determine_optimal_points` returns,
+    and slope / intercept are the ordinary least-squares line through exactly the first `k` MSD points (normal equations,
+    minimal sum of squared residuals), `D = slope / (2 dt)`, localisation variance `= intercept / 2`. -/
+theorem ols_auto_def (op : OptPts) (t : List Pt) (dt : Rat) (e : Est) (k : Nat) (h : olsAuto op t dt = .ok (e, k)) :
+    (∃ ki, detOpt op t = .ok (k, ki)) ∧ olsEstimate t dt k = .ok e ∧
+    ∃ pts a b, pts = ptsOf (msdCounts t (some (k : Int))) ∧ (a, b) = olsLine pts ∧
+      e.value = b * (1 / (2 * dt)) ∧ e.lv = a / 2 ∧
+      resSum pts a b = 0 ∧ resLagSum pts a b = 0 ∧ ∀ a' b', sse pts a b ≤ sse pts a' b' := by
+  unfold olsAuto at h
+  cases hd : detOpt op t with
+  | error x => rw [hd] at h; cases h
+  | ok kk =>
+    rw [hd] at h
+    simp only at h
+    cases he : olsEstimate t dt (kk.1 : Int) with
+    | error x => rw [he] at h; cases h
+    | ok e' =>
+      rw [he] at h
+      simp only [Except.map, Except.ok.injEq, Prod.mk.injEq] at h
+      obtain ⟨rfl, rfl⟩ := h
+      obtain ⟨_, hden, hv, hl⟩ := ols_estimate_def t dt _ _ he
+      refine ⟨⟨kk.2, rfl⟩, he, _, _, _, rfl, rfl, hv, hl, ?_, ?_, ?_⟩
+      · exact (ols_normal_equations _ hden).1
+      · exact (ols_normal_equations _ hden).2
+      · exact ols_minimises _ hden
+
+/-- non-vacuity: a 6-point track on which the search (with the `optimal_points` that always answers 2 lags) succeeds -/
+example : ∃ r, olsAuto (fun _ _ => .ok (2, 2)) [(0, 0), (1, 1), (2, 3), (3, 2), (4, 4), (5, 3)] 1 = .ok r :=
+  exists_ok_of_toBool _ (by decide +kernel)
+
+/-- with `max_lag=None` the OLS estimate AND the number of lags it reports are invariant under translating / mirroring
+    the positions and shifting the frame indices. -/
+theorem ols_auto_invariant (op : OptPts) (t : List Pt) (dt : Rat) (c : Rat) (k : Int) :
+    olsAuto op (translate c t) dt = olsAuto op t dt ∧ olsAuto op (mirror t) dt = olsAuto op t dt ∧
+    olsAuto op (frameShift k t) dt = olsAuto op t dt := by
+  obtain ⟨h1, h2, h3⟩ := optimal_points_invariant op t c k
+  unfold olsAuto
+  simp only [h1, h2, h3, fun L => (ols_invariant t dt L c k).1, fun L => (ols_invariant t dt L c k).2.1,
+    fun L => (ols_invariant t dt L c k).2.2, and_self]
+
+/-- **ols_auto_scale.** Positions scaled by `a ≠ 0`, `max_lag=None`: the same number of lags is chosen, the value and the
+    localisation variance scale by `a²`, the squared standard error by `a⁴`; errors are unchanged. -/
+theorem ols_auto_scale (op : OptPts) (a : Rat) (ha : a ≠ 0) (t : List Pt) (dt : Rat) :
+    olsAuto op (scale a t) dt = (olsAuto op t dt).map fun r =>
+      (⟨a ^ 2 * r.1.value, a ^ 4 * r.1.var, a ^ 2 * r.1.lv, r.1.varDefined⟩, r.2) := by
+  unfold olsAuto
+  rw [optimal_points_scale op a ha t]
+  cases detOpt op t with
+  | error e => rfl
+  | ok k =>
+    simp only [ols_scale]
+    cases olsEstimate t dt (k.1 : Int) <;> rfl
+
+/-- line time scaled by `c`, `max_lag=None`: the same number of lags, value `/c`, squared standard error `/c²`. -/
+theorem ols_auto_time_scale (op : OptPts) (c : Rat) (t : List Pt) (dt : Rat) :
+    olsAuto op t (c * dt) = (olsAuto op t dt).map fun r =>
+      (⟨r.1.value / c, r.1.var / c ^ 2, r.1.lv, r.1.varDefined⟩, r.2) := by
+  unfold olsAuto
+  cases detOpt op t with
+  | error e => rfl
+  | ok k =>
+    simp only [ols_time_scale]
+    cases olsEstimate t dt (k.1 : Int) <;> rfl
+
 end Verif.C09
